@@ -660,6 +660,10 @@ def sign(x):
 
 
 def maximum(a, b):
+    """only the rectifier pattern maximum(h, 0) = h * [h >= 0]"""
+    if isinstance(b, (int, float)) and b == 0:
+        a = _lift(a)
+        return a * _indicator(a, 0.0)
     raise ShimUnsupported("maximum")
 
 
